@@ -224,7 +224,7 @@ def snorm(s, hyp):
 # ------------------------------------------------------------------ matrix normaliser
 def norm(t, hyp=frozenset()):
     k = t[0]
-    if k in ("sym", "I", "var", "opaque", "mismatch", "chol", "plu", "argsort", "recip", "pinv", "iter", "factor", "elt", "eigvals", "eigvecs", "fapply", "zero", "lu", "svdpart"):
+    if k in ("sym", "I", "var", "opaque", "mismatch", "chol", "plu", "argsort", "recip", "iter", "factor", "elt", "eigvals", "eigvecs", "fapply", "zero", "lu", "svdpart"):
         return t
     if k == "perm":
         return ("perm", norm_vec(t[1]))
@@ -358,6 +358,32 @@ def norm(t, hyp=frozenset()):
         return t
     if k == "tri":
         return norm(t[1], hyp)
+    if k == "pinv":
+        # Moore-Penrose inverse: distributes over Kronecker products and diagonal blocks, commutes with transposition and conjugation,
+        # and is the inverse entrywise on the payload kinds; it does NOT distribute over products or sums
+        x = norm(t[1], hyp)
+        kx = x[0]
+        if kx == "join":
+            return ("join", frozenset(norm(("pinv", y), hyp) for y in x[1]))
+        if kx == "I":
+            return I
+        if kx == "scal" and x[2] == I:
+            return norm(("scal", ("sinv", x[1]), I), hyp)
+        if kx in ("diag", "perm"):
+            return norm(("inv", x), hyp)
+        if kx == "kron":
+            return norm(("kron", tuple(("pinv", y) for y in x[1])), hyp)
+        if kx == "bdiag":
+            return norm(("bdiag", tuple(("pinv", y) for y in x[1])) + x[2:], hyp)
+        if kx == "fam" and x[1] in ("kron", "bdiag"):
+            return norm(("fam", x[1], x[2], ("pinv", x[3])) + x[4:], hyp)
+        if kx in ("T", "C"):
+            return norm((kx, ("pinv", x[1])), hyp)
+        if kx == "inv":
+            return x[1]
+        if kx == "pinv":
+            return x[1]
+        return ("pinv", x)
     if k in ("T", "C", "inv"):
         x = norm(t[1], hyp)
         kx = x[0]
@@ -399,6 +425,8 @@ def norm(t, hyp=frozenset()):
             return ("diag", norm_vec(("recip", x[1])))
         if kx == "diag" and k == "T":
             return x
+        if kx == "diag" and k == "C":
+            return ("diag", norm(("C", x[1]), hyp))  # conj(diag(d)) = diag(conj(d))
         if kx == "kron" and k == "inv":
             return norm(("kron", tuple(("inv", y) for y in x[1])), hyp)
         if kx == "fn" and k in ("T", "C") and x[1].startswith("real:"):
@@ -478,6 +506,21 @@ def alternatives(t):
 def equal(got, want, hyp=frozenset(), defs=None):
     """-> True / False / None (None: opaque on the way)"""
     defs = defs or {}
+    if defs:
+        # what is assumed about an operator holds for its defining term: a Hermitian diag(d) has real d, a Hermitian c·I real c,
+        # a Hermitian / unitary / real Dense(M) has such an M
+        hyp = set(hyp)
+        for h, s in list(hyp):
+            d = defs.get(s)
+            if d is None:
+                continue
+            if d[0] == "sym":
+                hyp.add((h, d))
+            elif h == "herm" and d[0] == "diag" and isinstance(d[1], tuple) and d[1][0] == "sym":
+                hyp.add(("real", d[1]))
+            elif h == "herm" and d[0] == "scal" and d[2] == I:
+                hyp.add(("sreal", snorm(d[1], frozenset())))
+        hyp = frozenset(hyp)
     g = norm(expand(got, defs), hyp)
     w = norm(expand(want, defs), hyp)
     res = True
